@@ -209,6 +209,7 @@ func isPointerLike(t types.Type) bool {
 
 // typeKey is a stable readable key for a type (used in heap keys and tags).
 func typeKey(t types.Type) string {
+	t = types.Unalias(t) // FloatCodec = floatCodec[float32]: the dynamic type is the aliased one
 	return types.TypeString(t, func(p *types.Package) string { return p.Path() })
 }
 
